@@ -401,6 +401,30 @@ impl Chain {
 
     /// Runs one block through CheckTx -> PrepareProposal -> FinalizeBlock -> Commit with the real
     /// handlers; the block is whatever the proposer built from the mempool.
+    /// A chain that has not reached the Aspen upgrade (legacy validator-set storage): genesis
+    /// plus two empty blocks; Aspen / Blackburn are scheduled far in the future.
+    pub(crate) async fn new_pre_aspen() -> Self {
+        use astria_core::upgrades::test_utils::UpgradesBuilder;
+        let upgrades = UpgradesBuilder::new().set_aspen(Some(100)).set_blackburn(Some(101)).build();
+        let mut fixture = Fixture::uninitialized(Some(upgrades)).await;
+        let mut accounts: Vec<(Address, u128)> = vec![
+            (addr(&ALICE), crate::test_utils::TEN_QUINTILLION),
+            (addr(&BOB), crate::test_utils::TEN_QUINTILLION),
+            (addr(&CAROL), crate::test_utils::TEN_QUINTILLION),
+        ];
+        for k in [&*SUDO, &*IBC_SUDO, &*W, &*DAVE, &*EVE] {
+            accounts.push((addr(k), GENESIS_SMALL));
+        }
+        fixture.chain_initializer().with_genesis_accounts(accounts).init().await;
+        let mut chain = Self {
+            fixture,
+            next_height: 1,
+        };
+        chain.run_block(vec![]).await;
+        chain.run_block(vec![]).await;
+        chain
+    }
+
     pub(crate) async fn run_block(&mut self, txs: Vec<Bytes>) -> BlockOutcome {
         let height = self.next_height;
         let mempool = self.fixture.mempool();
